@@ -136,8 +136,10 @@ PLANS["C02"] = {
              "empty stretches, dense runs, uniform); (c) m = 0 for every n = 2^k +-1 up to the memory bound, m = 1, m = n, m = n-1; (d) adversarial select_zero layouts with 17..4000 zero runs; "
              "the width actually chosen is read from the serialized bytes; distinct = digest of (observed width, m, n class, layout, positions); non-trivial = 0 < m < n or n <= 1"),
     "legs": {
-        "quick": [leg("rel", 16), leg("dbg", 16), leg("miri", 6, "small", of=512, budget=3000), leg("miri-wrap", 6, "widths", of=12, scale=150, budget=2500)],
-        "thorough": [leg("rel", 16), leg("dbg", 16), leg("rel-nobmi", 16), leg("miri", 12, "small", of=128, budget=20000), leg("miri-wrap", 12, "widths", of=12, scale=60, budget=15000)],
+        "quick": [leg("rel", 16), leg("dbg", 16), leg("miri", 6, "small", of=512, budget=3000), leg("miri-wrap", 6, "widths", of=12, scale=150, budget=2500),
+                   leg("fuzz", 2, "widths", runs=1000)],
+        "thorough": [leg("rel", 16), leg("dbg", 16), leg("rel-nobmi", 16), leg("miri", 12, "small", of=128, budget=20000), leg("miri-wrap", 12, "widths", of=12, scale=60, budget=15000),
+                      leg("fuzz", 8, "widths", runs=30000), leg("fuzz-dbg", 4, "widths", runs=30000)],
     },
     "require": {
         "quick": [("set_size", "sparse_low_width", 63), ("probe", "sparse_fzr_binary", 1), ("probe", "sparse_fzr_linear", 1), ("counter", "widths.on_target", 63), ("counter", "wide.one_side_cases", 1), ("counter", "wide.zero_side_cases", 1)],
@@ -179,8 +181,10 @@ PLANS["C15"] = {
              "at n-1 and next to bucket boundaries, universes up to 2^40; (c) try_from_iter on every sequence over {0..3} of length <= L (accept iff non-decreasing, universe = last+1) and on long sorted / "
              "once-inverted sequences; zero-side queries are not checked (documented as unsupported); distinct = digest of (universe, value list); non-trivial = at least two values"),
     "legs": {
-        "quick": [leg("rel", 16), leg("dbg", 16), leg("miri", 8, "small", of=256, budget=3000)],
-        "thorough": [leg("rel", 16), leg("dbg", 16), leg("miri", 12, "small", of=64, budget=20000), leg("miri-wrap", 8, "from_iter", of=64, budget=20000)],
+        "quick": [leg("rel", 16), leg("dbg", 16), leg("miri", 8, "small", of=256, budget=3000),
+                   leg("fuzz", 2, "gen", runs=2500)],
+        "thorough": [leg("rel", 16), leg("dbg", 16), leg("miri", 12, "small", of=64, budget=20000), leg("miri-wrap", 8, "from_iter", of=64, budget=20000),
+                      leg("fuzz", 8, "gen", runs=60000), leg("fuzz-dbg", 4, "gen", runs=60000)],
     },
     "require": {"quick": [], "thorough": []},
     "level_text": ("exploration: multiset sparse vectors are built exhaustively at small scope and by directed generation, and every present-value query, both set-bit iterator directions and both bit "
@@ -197,8 +201,10 @@ PLANS["C04"] = {
              "four skews; WMCore map_down/map_down_with/map_up_with compared with the stable sort by reversed bits; distinct = digest of (width, length, alphabet shape, skew, item type, content); "
              "non-trivial = at least two distinct symbols or length <= 2"),
     "legs": {
-        "quick": [leg("rel", 16), leg("dbg", 16), leg("miri", 6, "small", of=512, budget=3000)],
-        "thorough": [leg("rel", 16), leg("dbg", 16), leg("rel-nobmi", 16), leg("miri", 12, "small", of=128, budget=20000)],
+        "quick": [leg("rel", 16), leg("dbg", 16), leg("miri", 6, "small", of=512, budget=3000),
+                   leg("fuzz", 2, "gen", runs=1500)],
+        "thorough": [leg("rel", 16), leg("dbg", 16), leg("rel-nobmi", 16), leg("miri", 12, "small", of=128, budget=20000),
+                      leg("fuzz", 8, "gen", runs=40000), leg("fuzz-dbg", 4, "gen", runs=40000)],
     },
     "require": {"quick": [("counter", "big.model_long_superblocks_first_level_ones", 2), ("counter", "big.model_long_superblocks_first_level_zeros", 2)], "thorough": [("counter", "big.model_long_superblocks_first_level_ones", 2), ("counter", "big.model_long_superblocks_first_level_zeros", 2)]},
     "level_text": ("exploration: wavelet matrices built from exhaustive small vectors and shaped generated vectors are queried through every Vector/Access/VectorIndex method and the core mapping while a plain "
@@ -311,8 +317,10 @@ PLANS["C12"] = {
              "push_int(w in 0..=64) whose total ends exactly at, one bit over, or straddles the buffer end; close modes {close, close+close, drop, close then drop}; the whole file is compared byte by byte with "
              "serialize() of the in-memory vector, len() and is_open() checked; distinct = digest of (width, buffer, count, mode)"),
     "legs": {
-        "quick": [leg("rel", 16), leg("dbg", 16)],
-        "thorough": [leg("rel", 16), leg("dbg", 16), leg("asan", 8, "raw")],
+        "quick": [leg("rel", 16), leg("dbg", 16),
+                   leg("fuzz", 2, "raw", runs=6000), leg("fuzz", 2, "int", runs=6000)],
+        "thorough": [leg("rel", 16), leg("dbg", 16), leg("asan", 8, "raw"),
+                      leg("fuzz", 6, "raw", runs=200000), leg("fuzz", 6, "int", runs=200000), leg("fuzz-dbg", 3, "raw", runs=100000), leg("fuzz-dbg", 3, "int", runs=100000)],
     },
     "require": {"quick": [("probe", "flush_safe_carry", 1), ("probe", "flush_safe_exact", 1), ("probe", "flush_final_empty", 1), ("probe", "flush_final_nonempty", 1)]},
     "level_text": "exploration: writer configurations aimed at every flush regime run against real files; the file left behind is compared byte for byte with the in-memory serialization; flush-regime probes must all fire",
